@@ -14,7 +14,8 @@ CONSTANTS MCW,        \* [pools, fl]  the cluster and the simulator flags
           SchedRt,    \* simulated scheduler runtime
           Frontier,   \* [la |-> lookahead, rtg |-> release_taskgraphs, retract |-> retract_schedules] of the policy
           Delays,     \* set of placement delays the policy may choose (relative to now + SchedRt)
-          MaxInvocations \* bound on scheduler invocations that return decisions (state-space bound)
+          MaxInvocations, \* bound on scheduler invocations that return decisions (state-space bound)
+          AllowCancel \* whether the policy may answer with a cancellation
 
 VARIABLES S, phase, ninv
 mcvars == <<S, phase, ninv>>
@@ -43,7 +44,7 @@ Offered(St) == Schedulable(St, St.now, Frontier.la, Frontier.retract, Frontier.r
 Options(St, t) ==
     {[kind |-> 0, t |-> t, placed |-> FALSE, pool |-> 0, wk |-> 0, sd |-> NoSD, tm |-> -1, pr |-> 0],
      [kind |-> 4, t |-> t, placed |-> FALSE, pool |-> 0, wk |-> 0, sd |-> NoSD, tm |-> -1, pr |-> 0],
-     [kind |-> 3, t |-> t, placed |-> FALSE, pool |-> 0, wk |-> 0, sd |-> NoSD, tm |-> -1, pr |-> 0]}
+     [kind |-> IF AllowCancel THEN 3 ELSE 0, t |-> t, placed |-> FALSE, pool |-> 0, wk |-> 0, sd |-> NoSD, tm |-> -1, pr |-> 0]}
     \cup
     {[kind |-> 4, t |-> t, placed |-> TRUE, pool |-> p, wk |-> 0,
       sd |-> [dem |-> St.tk[t].strats[k].dem, rt |-> St.tk[t].strats[k].rt, bs |-> St.tk[t].strats[k].bs, bid |-> 0],
@@ -70,12 +71,26 @@ Draws(St, e) ==
          IN  IF pos = {} THEN {0} ELSE pos
     ELSE {0}
 
+\* closed loop: MCGraphs lists every invocation; those with init = FALSE are dormant until an invocation of the same
+\* job graph completes (Workload.notify_task_graph_completion -> JobGraph.get_next_task_graph(finish + 1))
+Dormant(St, jg) == {g \in 1..Len(St.gr) : St.gr[g].jg = jg /\ g \notin Range(St.wl)}
+ClosedNew(St, e) ==
+    IF e.ty = E_FINISHED /\ St.gr[GraphOf(St, e.t)].closed /\ Dormant(St, St.gr[GraphOf(St, e.t)].jg) # {}
+       /\ GComplete([St EXCEPT !.ts[e.t].st = COMPLETED], GraphOf(St, e.t))
+    THEN <<CHOOSE g \in Dormant(St, St.gr[GraphOf(St, e.t)].jg) : \A h \in Dormant(St, St.gr[GraphOf(St, e.t)].jg) : g <= h>>
+    ELSE <<>>
+Materialise(St, gs) ==
+    IF gs = <<>> THEN St
+    ELSE [St EXCEPT !.ts = [t \in 1..NT(St) |->
+            IF St.tk[t].g = gs[1] /\ St.tk[t].src THEN [St.ts[t] EXCEPT !.rel = St.now + 1, !.irel = St.now + 1] ELSE St.ts[t]]]
+
 \* the state after the pending decisions have been applied (for the frontier seen by __get_next_scheduler_event)
 AfterDecs(St) == ApplyDecs(MCW, St, St.pd.decs, <<>>, "", 0).S
 
 Bind(St, e, draw, ans) ==
     [ draw |-> draw,
-      newg |-> IF e.ty = E_UPDATE /\ St.wl = <<>> THEN [g \in 1..Len(St.gr) |-> g] ELSE <<>>,
+      newg |-> IF e.ty = E_UPDATE /\ St.wl = <<>> THEN SelectSeq([g \in 1..Len(St.gr) |-> g], LAMBDA g : St.gr[g].init)
+               ELSE ClosedNew(St, e),
       fuzz |-> IF e.ty = E_PLACEMENT THEN St.ts[e.t].rem ELSE 0,
       decs |-> [rt |-> SchedRt, decs |-> ans],
       offered1 |-> Offered(St),
@@ -90,7 +105,7 @@ Loop ==
        ELSE LET S1 == DoStep(S, c.size) IN
             \E i \in PopCandidates(S1) :
               LET e == S1.q[i]
-                  S2 == QRemove(S1, e)
+                  S2 == Materialise(QRemove(S1, e), ClosedNew(QRemove(S1, e), e))
               IN  \E draw \in Draws(S2, e) :
                   \E ans \in (IF e.ty = E_SCHED_START THEN Answers(S2) ELSE {<<>>}) :
                      LET h == Handle(MCW, S2, e, Bind(S2, e, draw, ans)) IN
@@ -115,6 +130,7 @@ MC_C18 ==
         /\ C18_NoStarvation(S, S.now, res) /\ C18_NoDead(S, res) /\ C18_NoDuplicates(res)
         /\ C18_ScheduledOnlyIfRetract(S, res, ret, FALSE) /\ C18_RunningOnlyIfPreempt(S, res, FALSE)
         /\ C18_Monotone(S, S.now, la, ret)
+MC_C19 == C19_ClosedLoop(S) /\ (phase = "ended" => C19_ClosedLoopTotal(MCW, S))
 MC_C08 == C08_CancelCounter(S) /\ (phase = "ended" => C08_Counters(S))
 MC_C05_End == phase = "ended" => C05_NoPrematureEnd(MCW, S)
 MC_NoCrash == phase # "crashed"
